@@ -98,7 +98,7 @@ func (ex *Exec) callWith(f *frame, st *State, instr ssa.Instruction, cc *ssa.Cal
 			ex.oblige(f, st, "nilderef", "call "+ex.V.srcText(cc.Value, pos), "", pos, not(eq(fv, intLit(0))), "call of possibly nil function value")
 		}
 		// ghost call counter
-		calls := ex.get(st, "G:calls", arraySort(SInt, SInt))
+		callsC := callsComp(cc.Value.Type())
 		key := "funcval:" + funcName(f.fn) + "." + valueSrcName(cc.Value)
 		if c := ex.V.contracts[key]; c != nil {
 			ex.applyContract(f, st, c, nil, sig, Term{}, nil, args, cc.Args, res, hint, pos)
@@ -107,9 +107,8 @@ func (ex *Exec) callWith(f *frame, st *State, instr ssa.Instruction, cc *ssa.Cal
 			ex.setResult(f, res, ex.freshResults(f, st, sig, hint))
 			ex.note("dynamic call of function value in " + funcName(f.fn) + " (havoc of signature-compatible functions' inferred write sets)")
 		}
-		calls2 := ex.get(st, "G:calls", arraySort(SInt, SInt))
-		_ = calls
-		ex.set(st, "G:calls", store(calls2, fv, app(SInt, "+", sel(calls2, fv), intLit(1))))
+		calls2 := ex.get(st, callsC, arraySort(SInt, SInt))
+		ex.set(st, callsC, store(calls2, fv, app(SInt, "+", sel(calls2, fv), intLit(1))))
 		return
 	}
 	name := funcName(callee)
@@ -158,7 +157,21 @@ func (ex *Exec) callWith(f *frame, st *State, instr ssa.Instruction, cc *ssa.Cal
 			}
 		}
 	}
-	ex.havocSet(st, ex.V.modSet(callee))
+	mods := ex.V.modSet(callee)
+	if !isRulio(callee) {
+		// pointers / maps / slices passed boxed in interface arguments (json.Unmarshal(bs, &x)) may be written too
+		extra := map[string]bool{}
+		for k := range mods {
+			extra[k] = true
+		}
+		for _, a := range cc.Args {
+			if mi, ok := a.(*ssa.MakeInterface); ok {
+				ex.V.shallowWrites(mi.X.Type(), extra)
+			}
+		}
+		mods = extra
+	}
+	ex.havocSet(st, mods)
 	ex.noRestore = nil
 	rs := ex.freshResults(f, st, sig, hint)
 	ex.setResult(f, res, rs)
@@ -284,7 +297,7 @@ func (ex *Exec) havocSet(st *State, mods map[string]bool) {
 	ex.advanceClock(st)
 	if mods["*"] {
 		for _, k := range sortedKeys(ex.V.compSorts) {
-			if k == compAlloc || strings.HasPrefix(k, "LK:") || strings.HasPrefix(k, "G:") {
+			if k == compAlloc || strings.HasPrefix(k, "LK:") || strings.HasPrefix(k, "LA:") || strings.HasPrefix(k, "G:") {
 				continue
 			}
 			ex.havoc(st, k)
@@ -294,6 +307,15 @@ func (ex *Exec) havocSet(st *State, mods map[string]bool) {
 	}
 	for _, k := range sortedKeys(mods) {
 		if k == compAlloc {
+			continue
+		}
+		if strings.HasSuffix(k, ".*") && strings.HasPrefix(k, "F:") {
+			pfx := strings.TrimSuffix(k, "*")
+			for _, c := range sortedKeys(ex.V.compSorts) {
+				if strings.HasPrefix(c, pfx) {
+					ex.havoc(st, c)
+				}
+			}
 			continue
 		}
 		ex.havoc(st, k)
@@ -500,6 +522,12 @@ func (ex *Exec) lockIntrinsic(f *frame, st *State, callee *ssa.Function, cc *ssa
 	lk := ex.get(st, comp, arraySort(SInt, SInt))
 	cur := sel(lk, l.ref)
 	detail := strings.TrimPrefix(comp, "LK:")
+	if op == "Lock" || op == "RLock" {
+		// ghost acquisition counter per mutex
+		ac := "LA:" + strings.TrimPrefix(comp, "LK:")
+		la := ex.get(st, ac, arraySort(SInt, SInt))
+		ex.set(st, ac, store(la, l.ref, app(SInt, "+", sel(la, l.ref), intLit(1))))
+	}
 	switch op {
 	case "Lock":
 		if ex.lockMode {
